@@ -4,6 +4,7 @@ Function-level theorems about `Model/Station.lean` for every input; the lift ove
 sequences rests on the C05 invariant development.
 -/
 import ProfiVerif.Model.Station
+import ProfiVerif.Lemmas.StationTrace
 
 namespace PV.C11
 open PV
@@ -146,5 +147,290 @@ example : (match handleTelegram demo 1000 (.token 7 3) true with
     | .ok c => c.s.st | .panic _ => .offline) = .useToken ⟨1000, none⟩ false := by decide
 example : (match handleTelegram demo 1000 (.token 7 9) true with
     | .ok c => c.s.st | .panic _ => .offline) = .activeIdle none (some 9) 0 := by decide
+
+
+/-! ## Lift to whole polls (`Station.poll`, any start state, any arriving bytes, any time, any
+application scripts) and to arbitrary API-call sequences
+
+Helper lemmas: `Lemmas/StationTrace.lean`.  The theorems about one poll are conditional on the poll
+returning regularly (`.ok c'`) and need no hypothesis on the start state; that it does return
+regularly from every state satisfying the station invariant is C05.  The `_trace` forms speak about
+every step of every API-call sequence from a fresh station. -/
+
+open C05 TokenRing
+
+/-- **`listener_never_accepts`** (one whole poll, through the whole `do_listen_token` fold over all
+received telegrams).  A poll that starts in `ListenToken` — or in `Offline`, from which the first
+online poll enters `ListenToken` — ends, whatever bytes arrive and whatever the time is, in
+`ListenToken`, in `Offline` (second collision with the own address: the station takes itself off the
+bus), in `ClaimToken` (token-lost time-out; first or second claim token), or in `ActiveIdle` — the
+latter only by answering a pending FDL status request (start state `ListenToken` with a recorded
+requester, a response is transmitted in this poll), never because of a token.  No application is
+called.  In particular it never ends holding or passing a token. -/
+theorem listener_never_accepts (s : Station) (apps : Apps) (now : Int) (phy : Bool) (rx : Bytes) (c' : Ctx)
+    (h : s.poll apps now phy rx = .ok c') (hst : (∃ sr coll, s.st = .listenToken sr coll) ∨ s.st = .offline) :
+    c'.calls = [] ∧
+    ((∃ a b, c'.s.st = .listenToken a b) ∨ c'.s.st = .offline ∨
+     (c'.s.st = .activeIdle none none 0 ∧ (∃ src coll, s.st = .listenToken (some src) coll) ∧ c'.tx.isSome = true) ∨
+     c'.s.st = .claimToken .firstToken ∨ c'.s.st = .claimToken .secondToken) := by
+  rcases poll_cases s apps now phy rx c' h with ⟨hoff, hst0, rfl⟩ | ⟨hon, rfl⟩ | ⟨hon, hd⟩
+  · exact ⟨rfl, .inr (.inl hst0)⟩
+  · refine ⟨rfl, .inl ?_⟩
+    rcases wake_cases s with hw | ⟨hw, -⟩
+    · rw [hw]
+      rcases hst with ⟨sr, coll, hs⟩ | hs
+      · exact ⟨sr, coll, by simpa [markBusActivity] using hs⟩
+      · exfalso
+        unfold Station.wake at hw
+        rw [hs] at hw
+        have := congrArg Station.st hw
+        simp [hs] at this
+    · rw [hw]; exact ⟨none, 0, by simp [markBusActivity]⟩
+  · have fin : ∀ (sr : Option Nat), (sr = none ∨ ∃ coll, s.st = .listenToken sr coll) →
+        ListenPost { s := checkBusActivity s.wake now rx.length, apps := apps, rx := rx } c' sr →
+        c'.calls = [] ∧
+        ((∃ a b, c'.s.st = .listenToken a b) ∨ c'.s.st = .offline ∨
+         (c'.s.st = .activeIdle none none 0 ∧ (∃ src coll, s.st = .listenToken (some src) coll) ∧ c'.tx.isSome = true) ∨
+         c'.s.st = .claimToken .firstToken ∨ c'.s.st = .claimToken .secondToken) := by
+      intro sr hsr hpost
+      obtain ⟨hq, -, hs⟩ := hpost
+      refine ⟨hq.calls, ?_⟩
+      rcases hs with ⟨-, h'⟩ | ⟨-, h'⟩ | ⟨-, h', ⟨src, hsrc⟩, htx⟩ | ⟨-, h' | h'⟩
+      · exact .inl h'
+      · exact .inr (.inl h')
+      · refine .inr (.inr (.inl ⟨h', ?_, htx⟩))
+        rcases hsr with hn | ⟨coll, hc⟩
+        · rw [hn] at hsrc; cases hsrc
+        · exact ⟨src, coll, by rw [← hsrc]; exact hc⟩
+      · exact .inr (.inr (.inr (.inl h')))
+      · exact .inr (.inr (.inr (.inr h')))
+    rcases wake_cases s with hw | ⟨hw, -⟩
+    · rcases hst with ⟨sr, coll, hs⟩ | hs
+      · exact fin sr (.inr ⟨coll, hs⟩) (hd.listen sr coll ((checkBA_st _ _ _).trans (by rw [hw]; exact hs)))
+      · exfalso
+        unfold Station.wake at hw
+        rw [hs] at hw
+        have := congrArg Station.st hw
+        simp [hs] at this
+    · exact fin none (.inl rfl) (hd.listen none 0 ((checkBA_st _ _ _).trans (by rw [hw])))
+
+
+/-- … so a listener never ends a poll holding, using, passing or supervising a token. -/
+theorem listener_never_holds_token (s : Station) (apps : Apps) (now : Int) (phy : Bool) (rx : Bytes) (c' : Ctx)
+    (h : s.poll apps now phy rx = .ok c') (hst : (∃ sr coll, s.st = .listenToken sr coll) ∨ s.st = .offline) :
+    (∀ d f, c'.s.st ≠ .useToken d f) ∧ (∀ a d, c'.s.st ≠ .awaitData a d) ∧ (∀ g att, c'.s.st ≠ .passToken g att) ∧
+    (∀ att, c'.s.st ≠ .checkTokenPass att) ∧ (∀ a, c'.s.st ≠ .awaitStatus a) := by
+  obtain ⟨-, hs⟩ := listener_never_accepts s apps now phy rx c' h hst
+  refine ⟨?_, ?_, ?_, ?_, ?_⟩ <;> intros <;> intro hc <;>
+    rcases hs with ⟨_, _, h'⟩ | h' | ⟨h', -⟩ | h' | h' <;> rw [h'] at hc <;> cases hc
+
+/-- **`accept_only_from_ps_or_repeat`** (one whole poll).  A poll that starts in `ActiveIdle` (with
+pending stranger `np`, the station whose token offer was declined before) and ends in `UseToken` has
+received, as the LAST telegram of the batch it read in this poll, a token addressed to this station
+from another station that is the registered predecessor at that moment (the acceptance itself does not
+touch the ring view, so this is `PS` of the resulting state) or is exactly the pending stranger `np`.
+No status request was pending, and the token visit starts fresh (`token_time = now`). -/
+theorem accept_only_from_ps_or_repeat (s : Station) (apps : Apps) (now : Int) (phy : Bool) (rx : Bytes) (c' : Ctx)
+    (h : s.poll apps now phy rx = .ok c') (sr np : Option Nat) (coll : Nat) (hst : s.st = .activeIdle sr np coll)
+    (d : UseData) (fcd : Bool) (hu : c'.s.st = .useToken d fcd) :
+    s.online = true ∧ sr = none ∧ d = ⟨now, none⟩ ∧ fcd = false ∧
+    ∃ rx' pre da sa ret, receiveAll rx = .done rx' (pre ++ [(Telegram.token da sa, true)]) ret ∧
+      da.toNat = s.p.address ∧ sa.toNat ≠ s.p.address ∧ (sa.toNat = c'.s.ring.ps ∨ np = some sa.toNat) := by
+  have hw : s.wake = s := by
+    rcases wake_cases s with hw | ⟨-, ho | ho⟩
+    · exact hw
+    · rw [hst] at ho; cases ho
+    · rw [hst] at ho; cases ho
+  rcases poll_cases s apps now phy rx c' h with ⟨hoff, hst0, rfl⟩ | ⟨hon, rfl⟩ | ⟨hon, hd⟩
+  · rw [hst0] at hst; cases hst
+  · rw [hw] at hu
+    have : s.st = .useToken d fcd := (markBA_st s now).symm.trans hu
+    rw [hst] at this; cases this
+  · rw [hw] at hd
+    obtain ⟨-, -, -, hs⟩ := hd.idle sr np coll ((checkBA_st _ _ _).trans hst)
+    rcases hs with ⟨_, _, _, h'⟩ | ⟨_, _, h'⟩ | (h' | h') | ⟨hsr, rx', pre, da, sa, ret, hrx, hda, hsa, hsrc, h'⟩
+    · rw [h'] at hu; cases hu
+    · rw [h'] at hu; cases hu
+    · rw [h'] at hu; cases hu
+    · rw [h'] at hu; cases hu
+    · rw [h'] at hu; cases hu
+      have hp : (checkBusActivity s now rx.length).p = s.p := checkBA_p _ _ _
+      exact ⟨hon, hsr, rfl, rfl, rx', pre, da, sa, ret, hrx, by rw [← hp]; exact hda, by rw [← hp]; exact hsa, hsrc⟩
+
+/-- **`pass_supervision`** (one whole poll starting in `CheckTokenPass`): exactly three things can
+happen.  (1) Nothing: the own transmission is still on the wire, or the slot time has not expired and
+no complete telegram has arrived — state, ring view unchanged, nothing transmitted.  (2) The slot time
+expired in silence (`SlotExpired`, see `slotExpired_silent`): on the first and second expiry the token
+is retransmitted with the ring view untouched, on the third expiry exactly NS is removed first
+(`RetryStep`); then either the synchronisation pause is still awaited (`PassToken`), or the token goes
+out to the (new) NS, the own pass is witnessed, and the station supervises again — or keeps the token if
+it is now alone.  (3) A complete telegram was heard before the slot time expired: the station goes to
+`ActiveIdle` handling (it may end in `ActiveIdle`, in `ListenToken` after a second collision, or accept
+a token from its registered predecessor as last telegram), the ring view changes ONLY by witnessing
+token telegrams of the received batch — no station is removed by supervision — and nothing is
+retransmitted.  No application is ever called. -/
+theorem pass_supervision (s : Station) (apps : Apps) (now : Int) (phy : Bool) (rx : Bytes) (c' : Ctx)
+    (h : s.poll apps now phy rx = .ok c') (att : Attempt) (hst : s.st = .checkTokenPass att) :
+    c'.calls = [] ∧
+    ((c'.s.st = .checkTokenPass att ∧ c'.s.ring = s.ring ∧ c'.tx = none) ∨
+     (SlotExpired s now rx ∧ ∃ r0 att', RetryStep s.ring att att' r0 ∧
+        ((c'.s.st = .passToken false att' ∧ c'.s.ring = r0 ∧ c'.tx = none) ∨
+         (c'.s.ring = r0.witness s.p.address r0.ns ∧
+            (c'.s.st = .useToken ⟨now, none⟩ false ∨ c'.s.st = .checkTokenPass att') ∧
+            c'.tx = some (sendToken (UInt8.ofNat r0.ns) (UInt8.ofNat s.p.address))))) ∨
+     (¬ SlotExpired s now rx ∧ ∃ rx' calls ret, receiveAll rx = .done rx' calls ret ∧ calls ≠ [] ∧
+        HeardEvo calls s.ring c'.s.ring ∧ c'.tx = none ∧
+        ((∃ sr' np' coll', c'.s.st = .activeIdle sr' np' coll') ∨ (∃ a b, c'.s.st = .listenToken a b) ∨
+         (∃ pre da sa, calls = pre ++ [(Telegram.token da sa, true)] ∧ da.toNat = s.p.address ∧
+            sa.toNat ≠ s.p.address ∧ sa.toNat = c'.s.ring.ps ∧ c'.s.st = .useToken ⟨now, none⟩ false)))) := by
+  have hw : s.wake = s := by
+    rcases wake_cases s with hw | ⟨-, ho | ho⟩
+    · exact hw
+    · rw [hst] at ho; cases ho
+    · rw [hst] at ho; cases ho
+  rcases poll_cases s apps now phy rx c' h with ⟨hoff, hst0, rfl⟩ | ⟨hon, rfl⟩ | ⟨hon, hd⟩
+  · exact ⟨rfl, .inl ⟨hst, rfl, rfl⟩⟩
+  · rw [hw]
+    exact ⟨rfl, .inl ⟨(markBA_st s now).trans hst, markBA_ring s now, rfl⟩⟩
+  · rw [hw] at hd
+    obtain ⟨hq, -, hcase⟩ := hd.check att ((checkBA_st _ _ _).trans hst)
+    have hp : (checkBusActivity s now rx.length).p = s.p := checkBA_p _ _ _
+    have hr : (checkBusActivity s now rx.length).ring = s.ring := checkBA_ring _ _ _
+    refine ⟨hq.calls, ?_⟩
+    rcases hcase with ⟨hex, r0, att', hrs, hpost⟩ | ⟨hex, rx', calls, ret, hrx, hpost⟩
+    · refine .inr (.inl ⟨hex, r0, att', by rw [← hr]; exact hrs, ?_⟩)
+      rcases hpost with ⟨h1, h2, h3⟩ | ⟨h1, h2, h3⟩
+      · exact .inl ⟨h1, h2, h3⟩
+      · exact .inr ⟨by rw [← hp]; exact h1, h2, by rw [← hp]; exact h3⟩
+    · rcases hpost with ⟨-, h1, h2, h3⟩ | ⟨hne, hev, htx, hs⟩
+      · exact .inl ⟨h1, h2.trans hr, h3⟩
+      · refine .inr (.inr ⟨by unfold SlotExpired; rw [hex]; simp, rx', calls, ret, hrx, hne, by rw [← hr]; exact hev, htx, ?_⟩)
+        · rcases hs with h' | h' | ⟨pre, da, sa, hc, hda, hsa, hps, hu⟩
+          · exact .inl h'
+          · exact .inr (.inl h')
+          · exact .inr (.inr ⟨pre, da, sa, hc, by rw [← hp]; exact hda, by rw [← hp]; exact hsa, hps, hu⟩)
+
+
+/-- Registered bus activity blocks the expiry: if a new byte has become pending since the last poll,
+the slot time is not expired in this poll — nothing is retransmitted, nobody is removed. -/
+theorem activity_blocks_expiry (s : Station) (now : Int) (rx : Bytes) (h : rx.length > s.pendingBytes) :
+    ¬ SlotExpired s now rx := by
+  intro he
+  have := (slotExpired_silent s now rx he).1
+  omega
+
+/-- **`never_remove_heard`** (one whole poll, ANY start state).  Across a poll the ring view evolves
+without any `remove_station` — only by witnessed token passes (heard or own), a successor entered
+after a positive GAP reply, the claim, or the reset when the station takes itself offline (`RingEvo`)
+— except in a poll that starts online in `CheckTokenPass` on the THIRD attempt with the slot time
+expired in silence: no new byte pending since the last poll and the last registered bus activity more
+than a slot time ago.  Then exactly NS is removed (followed, if the synchronisation pause is over, by
+the witnessed pass to the new NS).  A successor from which any activity was registered within the slot
+time is therefore never removed by supervision. -/
+theorem never_remove_heard (s : Station) (apps : Apps) (now : Int) (phy : Bool) (rx : Bytes) (c' : Ctx)
+    (h : s.poll apps now phy rx = .ok c') :
+    RingEvo s.p.address s.ring c'.s.ring ∨
+    (s.online = true ∧ s.st = .checkTokenPass .third ∧
+      (rx.length ≤ s.pendingBytes ∧ ∃ l, s.lastBusActivity = some l ∧ l + (s.p.slotTime : Nat) < now) ∧
+      ∃ r0, s.ring.removeStation s.ring.ns = some r0 ∧
+        (c'.s.ring = r0 ∨ c'.s.ring = r0.witness s.p.address r0.ns)) := by
+  rcases poll_ring s apps now phy rx c' h with hr | ⟨hon, hst, hex, hrm⟩
+  · exact .inl hr
+  · exact .inr ⟨hon, hst, slotExpired_silent s now rx hex, hrm⟩
+
+/-- **Trace form** of the hand-over rules: after ANY sequence `pre` of `poll` / `set_online` /
+`set_offline` calls from a fresh station, the next call `a` does not panic, and if it is a poll then,
+with respect to the state `w` the station is in at that moment: a listener does not accept
+(`listener_never_accepts`), an idle station accepts only from PS or the pending stranger
+(`accept_only_from_ps_or_repeat`), and the ring view loses a station by supervision only on a silent
+third expiry (`never_remove_heard`); `set_online` leaves the ring view alone and `set_offline` resets
+it. -/
+theorem handover_trace (p : Params) (apps : Apps) (h1 : p.address < p.hsa) (h2 : p.hsa ≤ 126)
+    (hs : ScriptsOk apps) (pre : List ApiCall) (a : ApiCall) :
+    ∃ w w' l, World.run { s := Station.new p, apps := apps, rx := [] } pre = some w ∧ w.stepLog a = some (w', l) ∧
+      -- ring view
+      (RingEvo w.s.p.address w.s.ring w'.s.ring ∨
+        (∃ now phy arrived, a = .poll now phy arrived ∧ w.s.online = true ∧ w.s.st = .checkTokenPass .third ∧
+          ((w.rx ++ arrived).length ≤ w.s.pendingBytes ∧
+            ∃ l0, w.s.lastBusActivity = some l0 ∧ l0 + (w.s.p.slotTime : Nat) < now) ∧
+          ∃ r0, w.s.ring.removeStation w.s.ring.ns = some r0 ∧
+            (w'.s.ring = r0 ∨ w'.s.ring = r0.witness w.s.p.address r0.ns))) ∧
+      -- listeners
+      (((∃ sr coll, w.s.st = .listenToken sr coll) ∨ w.s.st = .offline) →
+        (∀ d f, w'.s.st ≠ .useToken d f) ∧ (∀ x d, w'.s.st ≠ .awaitData x d) ∧ (∀ g att, w'.s.st ≠ .passToken g att) ∧
+        (∀ att, w'.s.st ≠ .checkTokenPass att) ∧ (∀ x, w'.s.st ≠ .awaitStatus x)) ∧
+      -- acceptance
+      (∀ sr np coll d fcd, w.s.st = .activeIdle sr np coll → w'.s.st = .useToken d fcd →
+        ∃ now phy arrived rx' pre' da sa ret, a = .poll now phy arrived ∧
+          receiveAll (w.rx ++ arrived) = .done rx' (pre' ++ [(Telegram.token da sa, true)]) ret ∧
+          da.toNat = w.s.p.address ∧ sa.toNat ≠ w.s.p.address ∧ (sa.toNat = w'.s.ring.ps ∨ np = some sa.toNat)) := by
+  obtain ⟨w, w', l, hw, -, hl⟩ := reach_step p apps h1 h2 hs pre a
+  refine ⟨w, w', l, hw, hl, ?_⟩
+  cases a with
+  | poll now phy arrived =>
+    simp only [World.stepLog] at hl
+    split at hl
+    · rename_i c hc
+      cases hl
+      refine ⟨?_, ?_, ?_⟩
+      · rcases never_remove_heard _ _ _ _ _ _ hc with hr | ⟨e1, e2, e3, e4⟩
+        · exact .inl hr
+        · exact .inr ⟨now, phy, arrived, rfl, e1, e2, e3, e4⟩
+      · intro hst
+        exact listener_never_holds_token _ _ _ _ _ _ hc hst
+      · intro sr np coll d fcd hst hu
+        obtain ⟨-, -, -, -, rx', pre', da, sa, ret, e1, e2, e3, e4⟩ :=
+          accept_only_from_ps_or_repeat _ _ _ _ _ _ hc sr np coll hst d fcd hu
+        exact ⟨now, phy, arrived, rx', pre', da, sa, ret, rfl, e1, e2, e3, e4⟩
+    · cases hl
+  | setOnline =>
+    cases hl
+    refine ⟨.inl (.refl _), ?_, ?_⟩
+    · intro hst
+      have hsame : (w.s.setOnline).st = w.s.st := rfl
+      refine ⟨?_, ?_, ?_, ?_, ?_⟩ <;> intros <;> intro hc <;> rw [hsame] at hc <;>
+        rcases hst with ⟨_, _, h'⟩ | h' <;> rw [h'] at hc <;> cases hc
+    · intro sr np coll d fcd hst hu
+      have hsame : (w.s.setOnline).st = w.s.st := rfl
+      rw [hsame, hst] at hu; cases hu
+  | setOffline =>
+    cases hl
+    obtain ⟨f1, f2, f3, f4⟩ := setOffline_fields w.s
+    refine ⟨.inl ?_, ?_, ?_⟩
+    · show RingEvo w.s.p.address w.s.ring w.s.setOffline.ring
+      rw [f4]; exact .reset _
+    · intro _
+      refine ⟨?_, ?_, ?_, ?_, ?_⟩ <;> intros <;> intro hc <;>
+        (have hc' : w.s.setOffline.st = _ := hc) <;> rw [f3] at hc' <;> cases hc'
+    · intro sr np coll d fcd _ hu
+      have hu' : w.s.setOffline.st = _ := hu
+      rw [f3] at hu'; cases hu'
+
+/-! ### Non-vacuity -/
+
+/-- An idle station (TS 7, PS 3) polled with the bytes of a token 3→7: the poll accepts it — the
+hypotheses of `accept_only_from_ps_or_repeat` are satisfiable. -/
+def idleStation : Station := { demo.s with lastBusActivity := some 0 }
+
+set_option maxRecDepth 100000 in
+example : (match idleStation.poll [] 1000 false [0xDC, 7, 3] with
+    | .ok c => c.s.st | .panic _ => .offline) = .useToken ⟨1000, none⟩ false := by decide
+
+/-- A supervising station on its third attempt, silent for more than a slot time (400 µs): the poll
+removes NS = 9 — the exceptional case of `never_remove_heard` does occur. -/
+def supervisingStation : Station := { demo.s with st := .checkTokenPass .third, lastBusActivity := some 0 }
+
+set_option maxRecDepth 100000 in
+example : (match supervisingStation.poll [] 1000 false [] with
+    | .ok c => (c.s.st, c.s.ring.ns, c.s.ring.isActive 9) | .panic _ => (.offline, 0, true)) =
+    (.useToken ⟨1000, none⟩ false, 7, false) := by decide
+
+/-- … and with a byte newly pending it does not (`activity_blocks_expiry`): nothing changes. -/
+example : ¬ SlotExpired supervisingStation 1000 [0xDC] := activity_blocks_expiry _ _ _ (by decide)
+
+/-- The trace theorem instantiated on a concrete history. -/
+example := handover_trace demoParams [[.decline]] (by decide) (by decide)
+    (by intro s hs a ha h pdu he; simp at hs; subst hs; simp at ha; subst ha; cases he)
+    [.setOnline, .poll 100 false [0xDC, 7, 3], .poll 100000 false []] (.poll 100500 false [])
 
 end PV.C11
